@@ -41,6 +41,8 @@ pub enum Decoration {
     /// (absolute path, displayed relative to it) and the others in a mirror of the tree that
     /// merely *contains* the project directory's path (displayed in full)
     MirrorPaths,
+    /// plain names, but every rule is unnamed (`Rule:` with an empty name)
+    UnnamedRules,
     /// every position moved down by 97 lines (two- and three-digit line numbers)
     /// and names / step texts carrying format and regex metacharacters
     BigLines,
@@ -134,7 +136,7 @@ pub fn decorated_sources(cfg: &Config, o: &Opts) -> Sources {
     };
     let deco_name = |name: &str, is_scen: bool| -> String {
         match o.deco {
-            Decoration::Plain => name.to_owned(),
+            Decoration::Plain | Decoration::UnnamedRules => name.to_owned(),
             Decoration::DupFeatures | Decoration::MirrorPaths => name.to_owned(),
             // equal by value to the first feature's entities
             Decoration::DupPathless => name.replacen("F2", "F1", 1),
@@ -194,7 +196,7 @@ pub fn decorated_sources(cfg: &Config, o: &Opts) -> Sources {
         }
         for r in &mut f.rules {
             let rk = r.name.clone();
-            r.name = deco_name(&rk, false);
+            r.name = if o.deco == Decoration::UnnamedRules { String::new() } else { deco_name(&rk, false) };
             if let Some(bg) = r.background.as_mut() {
                 for st in &mut bg.steps {
                     let k = st.value.clone();
@@ -498,6 +500,7 @@ pub fn opt_sets(thorough: bool) -> Vec<Opts> {
             Decoration::DupFeatures,
             Decoration::DupPathless,
             Decoration::MirrorPaths,
+            Decoration::UnnamedRules,
             Decoration::BigLines,
         ] {
             if (deco == Decoration::DupPathless && path) || (deco == Decoration::MirrorPaths && !path) {
@@ -720,7 +723,7 @@ pub fn run(a: &ShardArgs) -> serde_json::Value {
         "property": "C14", "tier": a.tier,
         "total_configs": cs.len() * osets.len(), "configs_done": evaluations, "configs_skipped_budget": skipped,
         "evaluations": evaluations, "distinct_nontrivial": nontrivial.len(),
-        "rule": "streams of the C12 grammar (quick: every 2nd single-scenario and every 24th two-scenario case) x {with path, path-less} x {plain, quotes/markup/non-ASCII names, same-named scenarios, rich (doc strings, tables, logs, World), same-named features of which one is path-less, same-named features none of which has a path, same-named features at <project dir>/p and <elsewhere>/<project dir>/p, positions shifted to two/three-digit lines with format/regex metacharacters in names} x reporter options (libtest show_output / report_time, verbosity 0/1) through Summarize<Normalize<Basic>> and Normalize<Libtest|Json|JUnit> into memory sinks; the terminal [Summary] block is parsed and compared with a recount of the stream; outputs parsed back by tools/parse_reports.py (json, xml.etree, line parser); non-trivial = distinct (stream, options) with a non-passed fact",
+        "rule": "streams of the C12 grammar (quick: every 2nd single-scenario and every 24th two-scenario case) x {with path, path-less} x {plain, quotes/markup/non-ASCII names, same-named scenarios, rich (doc strings, tables, logs, World), same-named features of which one is path-less, same-named features none of which has a path, same-named features at <project dir>/p and <elsewhere>/<project dir>/p, unnamed rules, positions shifted to two/three-digit lines with format/regex metacharacters in names} x reporter options (libtest show_output / report_time, verbosity 0/1) through Summarize<Normalize<Basic>> and Normalize<Libtest|Json|JUnit> into memory sinks; the terminal [Summary] block is parsed and compared with a recount of the stream; outputs parsed back by tools/parse_reports.py (json, xml.etree, line parser); non-trivial = distinct (stream, options) with a non-passed fact",
         "exhaustive": skipped == 0,
         "details": {"records_parsed_back": parsed_ok},
         "violations": violations, "samples": samples,
